@@ -3,6 +3,7 @@ mod harness;
 mod kit;
 mod mux;
 mod net;
+mod peer;
 mod props;
 mod proto;
 
